@@ -91,12 +91,19 @@ def canon_value(v, src):
     return ("other", type(v).__name__)
 
 
+def big_z(n):
+    """Z literal; hexadecimal when long (Coq reads decimal literals in quadratic time)."""
+    if -10 ** 40 < n < 10 ** 40:
+        return gal.z(n)
+    return "(-0x%x)%%Z" % -n if n < 0 else "0x%x%%Z" % n
+
+
 def val_term(c):
     k = c[0]
     if k == "text":
         return gal.app("VText", text_term(c[1]))
     if k == "int":
-        return gal.app("VInt", gal.z(c[1]))
+        return gal.app("VInt", big_z(c[1]))
     if k == "float":
         return gal.app("VFloat", text_term(c[1]))
     return {"true": "VTrue", "false": "VFalse", "null": "VNull"}.get(k, "VOther")
